@@ -214,6 +214,9 @@ def target(x, y=0.25, *rest, **kw):
     return len(SEEN)
 
 
+def eqtypes_of(k, ci): return (k + ci) % 4 == 3
+
+
 def cache_job(a):
     """key equality <-> oracle-rounded equality; originals reach the function; key() == stored key"""
     tier, k = a
@@ -236,19 +239,26 @@ def cache_job(a):
             if tupwrap: deep = True; tol = tol if tol in (0, 1, 2) else 1; kmk = kmk if kmk != 'raw' else ['string', 'pickle', 'md5'][k % 3]
             if negzero: tol = [0, 1][((k + ci) // 6) % 2]; kmk = ['string', 'pickle', 'md5'][(k // 3 + ci) % 3]
             km = {'string': stringmap, 'pickle': picklemap, 'md5': lambda: hashmap(algorithm='md5'), 'raw': keymap}[kmk]()
+            # stratum: a TYPED keymap under a tolerance - 1, 1.0 and True are three different arguments and rounding keeps their types
+            typedkm = eqtypes_of(k, ci) and (k + ci) % 8 == 7
+            if typedkm:
+                km = {'string': lambda: stringmap(typed=True), 'pickle': lambda: picklemap(typed=True), 'md5': lambda: hashmap(algorithm='md5', typed=True),
+                      'raw': lambda: keymap(typed=True)}[kmk]()
+                tol = tol if tol is not None else 2
             kwd = dict(keymap=km, tol=tol, deep=deep)
             if nm not in ('no_cache', 'inf_cache'): kwd['maxsize'] = 50
             f = D(**kwd)(target)
             G = klepto.keygen(keymap=km, tol=tol, deep=deep)(target)
             base = r.choice([1.234, 2.5, 0.125, 2.675, 1.005, 3.0])
-            eqtypes = (k + ci) % 4 == 3          # stratum: ==-equal arguments of different types back to back (3.0, 3, 3.0, ...)
-            if eqtypes: base = r.choice([3.0, 1.0])
+            eqtypes = eqtypes_of(k, ci)          # stratum: ==-equal arguments of different types back to back (3.0, 3, 3.0, ...)
+            if eqtypes: base = r.choice([3.0, 1.0]) if not typedkm else 1.0
             if negzero: eqtypes = False; base = [-0.25, -0.004, -0.0][k % 3] if tol == 0 else [-0.004, -0.04, -0.0][k % 3]
             calls = []
             for _ in range(6):
                 x = base + r.choice([0, 0.004, 0.04, 0.4, -0.004, 1e-9] if not eqtypes else [0, 0, 0, 0.004])
                 if negzero: x = base
                 if eqtypes and x == base and r.random() < .5: x = int(x) if r.random() < .7 or base != 1.0 else True
+                if typedkm: x = [1.0, 1, True, 1, True, 1.0][_]
                 if tupwrap: x = (x, 2.54) if _ % 2 else ((x, 'a'), 2.54)
                 elif r.random() < .3 and (kmk != 'raw' or mod == 'safe'): x = [x, r.choice([1, 'a', 2.55])] if r.random() < .5 else {'q': x}
                 form = r.choice(['pos', 'kw', 'default', 'extra', 'spelled', 'owntol', 'owntol'] if not eqtypes else ['pos', 'pos', 'pos', 'default'])
@@ -328,6 +338,19 @@ def cache_job(a):
                                          msg='%s.%s(tol=%r, deep=%r, %s): calls %r and %r %s but their arguments round to %s values' % (
                                              mod, nm, tol, deep, kmk, keys[i][2], keys[j2][2], 'share a key' if same_key else 'get different keys',
                                              'different' if not same_round else 'the same')))
+            # C10 under a tolerance: with a typed keymap ==-equal arguments of different types are different arguments, rounded or not
+            if typedkm:
+                for i in range(len(keys)):
+                    for j2 in range(i + 1, len(keys)):
+                        xi, xj = keys[i][4], keys[j2][4]
+                        if keys[i][3] == keys[j2][3] and keys[i][3] != 'owntol' and type(xi) is not type(xj) and type(xi) in (int, float, bool) and type(xj) in (int, float, bool) \
+                           and xi == xj and keys[i][0] == keys[j2][0]:
+                            viol.append(dict(prop='C10', sig=dict(kind='typed-values-merged-under-tol', dec='%s.%s' % (mod, nm), keymap=kmk, types=sorted([type(xi).__name__, type(xj).__name__])),
+                                             msg='%s.%s(tol=%r, deep=%r, %s typed=True): %r and %r are different arguments for a typed keymap but the calls %r and %r share the key %.100s' % (
+                                                 mod, nm, tol, deep, kmk, xi, xj, keys[i][2], keys[j2][2], keys[i][0])))
+                            break
+                    else: continue
+                    break
             # C09 under a tolerance: one argument object, the same explicit arguments, spelled positionally and by keyword
             done9 = False
             for i in range(len(keys)):
@@ -414,8 +437,8 @@ def explore(prop, tier, seedoff=0):
             tags['cache-config'] += 1; tags['cache-calls'] += o['n']
             for v in o['viol']:
                 if v['prop'] == prop: viols.append(dict(v, i=0, cfg=o['cfg'], ops=[]))
-    if prop in ('C18', 'C09'):
-        divs = []        # C18 and C09 use only the decorator part of this suite
+    if prop in ('C18', 'C09', 'C10'):
+        divs = []        # C18, C09 and C10 use only the decorator part of this suite
         viols = [v for v in viols if v['prop'] == prop]
     else:
         viols = [v for v in viols if v['prop'] == 'C12']
